@@ -3584,7 +3584,17 @@ def sort_objects_for_delta(
         magic.append((type_num, path, -obj.raw_length(), obj))
     # Build a list of objects ordered by the magic Linus heuristic
     # This helps us find good objects to diff against us
-    magic.sort()
+    # (hints may lack the type, the path or both: None sorts first, and the
+    # objects themselves are never compared)
+    magic.sort(
+        key=lambda x: (
+            x[0] is not None,
+            x[0] or 0,
+            x[1] is not None,
+            x[1] or b"",
+            x[2],
+        )
+    )
     return ((x[3], x[1]) for x in magic)
 
 
